@@ -91,6 +91,25 @@ if "in.message.text.with_skdm" not in c.BY_NAME:
         return f
     c._media("in.message.media.image.with_skdm", c._IMG, "image", _with_skdm(lambda rng, v: c.pb_image(c.draw_image(rng))))
     c._media("in.message.media.location.with_skdm", c._LOC, "location", _with_skdm(lambda rng, v: c.pb_location(c.draw_location(rng))))
+    # payloads the library parses but has no entity for: a revoke ("delete for everyone") and a bare contact without media type.
+    # Nothing is shown, the sender still gets exactly one delivery receipt.
+    def _pb_revoke(rng):
+        m = c._pb().Message()
+        m.protocol_message.key.remote_jid = c.gen_jid(rng)
+        m.protocol_message.key.from_me = True
+        m.protocol_message.key.id = c.gen_id(rng)
+        m.protocol_message.type = 0
+        return m
+
+    def _pb_bare_contact(rng):
+        m = c._pb().Message()
+        m.contact_message.display_name = c.gen_text(rng, 1, 20)
+        m.contact_message.vcard = b"BEGIN:VCARD\nEND:VCARD"
+        return m
+    for nm, pb in (("revoke", _pb_revoke), ("contact_nomediatype", _pb_bare_contact)):
+        c._in("in.message.text.%s" % nm, c.L_MSG, None, "message", c._in_text_message(pb), variants=c.MSG_VARIANTS,
+              reaction=c.react_delivery_receipt, reaction_layer=c.L_MSG,
+              notes="payload without an entity of its own (%s), no mediatype: consumed, one delivery receipt" % nm)
     c.BY_NAME.update({k.name: k for k in c.KINDS})
 
 
